@@ -1,12 +1,16 @@
-"""C11: correspondence between Model/Flatten.v and internal/ctrlflow.applyFlattening.
+"""C11: correspondence between Model/Passes.v and internal/ctrlflow/transform.go.
 
 The injected oracle (harness/inject/main/internal/ctrlflow/verif_oracle.go) builds SSA for Go
-functions the way garble does, runs the real applyFlattening with a seeded generator and dumps the
-block graph before and after.  Here the dumped result is renumbered into the model's block ids and
-Coq evaluates, per function, [hyps_okb keys g && cfg_eqb (flatten keys g) real]; by theorem
-C11_flatten_checked_instance a true answer means the dumped result is equivalent to the dumped input.
-When an answer is false, both graphs are executed inside Coq under free (trace) interpretations to
-find an execution on which they differ."""
+functions the way garble does, runs the real passes (addTrashBlockMarkers, applySplitting,
+addJunkBlocks, applyFlattening; one application each per stage, any order, one shared generator)
+and dumps the block graph after every stage.  Here every dump is read the way ssa2ast reads it
+(a block = its instructions, then the assignments the phi nodes of its successors place at its
+end according to their Preds lists, then its terminator), the parameters the pass chose are read
+off its output, and Coq evaluates per stage  passes_okb ps (g, start) && cfg_eqb (apply_passes ps g) real
+(ps = the pass, for flattening followed by its shuffle; block ids = positions in ssaFunc.Blocks);
+by theorem C11_passes_checked_instance a true answer means the dumped result is equivalent to the
+dumped input.  When an answer is false, both graphs are executed inside Coq under free (trace)
+interpretations to find an execution on which they differ."""
 import json, random
 import vlib, names_common
 
@@ -195,194 +199,292 @@ def gen_func(rng, name):
     return "func %s(x, y int) int {\nacc := 0\n%s\nreturn acc\n}\n" % (name, stmts(3, False, rng.randint(2, 4)))
 
 
-def term_of(b, cond_id):
-    t, s = b["term"], b["succs"]
-    if t == "jump":
-        return "TJump %d" % s[0]
-    if t == "if":
-        return "TIf (%s) %d %d" % (cond_id, s[0], s[1])
-    if t == "return":
-        return "TRet"
-    if t == "panic":
-        return "TPanic"
-    raise ValueError("block %d has no terminator" % b["id"])
+class Rejected(Exception):
+    """ssa2ast would refuse (panic on) this graph: the build fails, nothing is silently changed."""
 
 
-def coq_cfg(blocks):
-    return "[" + "; ".join("mkb (%s) (%s)" % (a, t) for a, t in blocks) + "]"
+OPS = {"==": "OEq", "!=": "ONe", "<": "OLt", "<=": "OLe", ">": "OGt", ">=": "OGe"}
 
 
-def before_graph(f):
-    """The dumped input as a model graph (block i = AOrig i, its condition = COrig i)."""
-    bs = sorted(f["before"], key=lambda b: b["id"])
-    assert [b["id"] for b in bs] == list(range(len(bs)))
-    return [("AOrig %d" % b["id"], term_of(b, "COrig %d" % b["id"])) for b in bs]
+class Namer:
+    """small consecutive numbers for instruction identities and phi variables"""
+    def __init__(self):
+        self.m = {}
+
+    def __call__(self, key):
+        if key not in self.m:
+            self.m[key] = len(self.m)
+        return self.m[key]
 
 
-def canonical_after(f):
-    """Renumber the dumped result into the model's ids: originals keep theirs, fake block k (k-th
-    predecessor of the dispatcher entry) = n+k, if-block k of the chain = n+m+k, entry = n+2m.
-    Returns (keys, blocks, notes); raises ValueError when the shape is not a dispatcher at all."""
-    n = len(f["before"])
-    after = {b["id"]: b for b in f["after"]}
-    if len(after) != len(f["after"]):
-        raise ValueError("a block occurs twice in ssaFunc.Blocks")
-    entry = f["after"][0]
-    if entry["term"] != "jump" or entry["phi_ints"] is None:
-        raise ValueError("Blocks[0] is not a dispatcher entry (jump with a constant phi)")
-    fakes = entry["preds"]
-    m = len(fakes)
-    keys = entry["phi_ints"]
-    if len(keys) != m or len(set(fakes)) != m:
-        raise ValueError("dispatcher phi has %d edges for %d distinct predecessors" % (len(keys), len(set(fakes))))
-    chain, cur = [], entry["succs"][0]
-    while cur >= n and cur in after and len(chain) <= m + 2 and cur not in chain and cur != entry["id"] and cur not in fakes:
-        chain.append(cur)
-        b = after[cur]
-        if b["term"] != "if":
-            break
-        cur = b["succs"][1]
-    ren = {i: i for i in range(n)}
-    for k, b in enumerate(fakes):
-        ren[b] = n + k
-    for k, b in enumerate(chain):
-        ren[b] = n + m + k
-    ren[entry["id"]] = n + len(fakes) + len(chain)
-    if len(ren) != len(after) or set(ren) != set(after):
-        raise ValueError("blocks outside originals/fakes/if-chain/entry: %s" % sorted(set(after) - set(ren)))
-    notes = []
-    out = [None] * len(after)
-    before = {b["id"]: b for b in f["before"]}
-    for bid, b in after.items():
-        rb = dict(b, succs=[ren.get(s, 10**6) for s in b["succs"]])
-        if bid < n:
-            if b["body"] != before[bid]["body"]:
-                notes.append("body of original block %d changed" % bid)
-            if b["preds"][:len(before[bid]["preds"])] != before[bid]["preds"]:
-                notes.append("predecessor list of original block %d changed (phi lowering depends on it)" % bid)
-            out[ren[bid]] = ("AOrig %d" % bid, term_of(rb, "COrig %d" % bid))
-        elif bid in fakes:
-            if b["body"]:
-                notes.append("fake block %d has a body" % bid)
-            out[ren[bid]] = ("ASetKey %d" % keys[fakes.index(bid)], term_of(rb, "COrig 0"))
-        elif bid in chain:
-            if not (b.get("cmp_phi") and b.get("cmp_op") == "==" and b.get("cmp_phi_block") == entry["id"] and len(b["body"]) == 1):
-                notes.append("if-block %d does not compare the dispatcher phi for equality" % bid)
-            out[ren[bid]] = ("ANone", term_of(rb, "CKeyEq %d" % b.get("cmp_int", 0)))
+def model_blocks(stage, initial_phis, nm):
+    """dump -> {dump block id: (body, term)} read as ssa2ast reads it.  body items are Coq instr
+    terms; term is a tuple ('jump', t) / ('if', cond, t, f) / ('ret', id) / ('panic', id) over dump ids."""
+    blocks = stage["blocks"]
+    byid = {b["id"]: b for b in blocks}
+    if len(byid) != len(blocks):
+        raise Rejected("a block occurs twice in ssaFunc.Blocks")
+    bodies = {b["id"]: [] for b in blocks}
+    phis = {b["id"]: [] for b in blocks}
+    for b in blocks:
+        for ins in b["instrs"]:
+            if ins["kind"] == "phi":
+                edges = ins.get("edges") or []
+                for idx, c in enumerate(edges):
+                    if idx >= len(b["preds"]):
+                        raise Rejected("phi with more edges than its block has predecessors (ssa2ast indexes Preds out of range)")
+                    pred = b["preds"][idx]
+                    if pred not in byid:
+                        raise Rejected("phi predecessor is not a block of the function")
+                    if ins["id"] in initial_phis or c is None:
+                        phis[pred].append((ins["id"], idx, "IOrig %d" % nm(("phiassign", ins["id"], idx))))
+                    else:
+                        if c < 0:
+                            raise Rejected("negative dispatcher constant")
+                        phis[pred].append((ins["id"], idx, "ISet %d %d" % (nm(("var", ins["id"])), c)))
+                continue
+            if ins["id"] == b["cond_instr"] and b["cond_phi"] not in initial_phis:
+                continue          # folded into the terminator's condition
+            bodies[b["id"]].append("IOrig %d" % nm(("instr", ins["id"])))
+    out = {}
+    for b in blocks:
+        t, s = b["term"], b["succs"]
+        if t == "jump":
+            term = ("jump", s[0])
+        elif t == "if":
+            if b["cond_instr"] >= 0 and b["cond_phi"] not in initial_phis:
+                if b["cond_int"] < 0 or b["cond_op"] not in OPS:
+                    raise Rejected("unexpected dispatcher comparison")
+                c = "CVar %d %s %d" % (nm(("var", b["cond_phi"])), OPS[b["cond_op"]], b["cond_int"])
+            else:
+                c = "COrig %d" % nm(("cond", b["term_id"]))
+            term = ("if", c, s[0], s[1])
+        elif t == "return":
+            term = ("ret", nm(("exit", b["term_id"])))
+        elif t == "panic":
+            term = ("panic", nm(("exit", b["term_id"])))
         else:
-            if b["body"] != ["phi/ctrflow.phi"]:
-                notes.append("entry block has extra instructions")
-            out[ren[bid]] = ("ANone", term_of(rb, "COrig 0"))
-    info = f.get("info") or []
-    if [p[0] for p in info] != keys or [p[1] for p in info] != [after[c].get("cmp_int") for c in chain][:len(info)]:
-        notes.append("dispatcherInfo does not list the stored/compared constants")
-    return keys, out, notes
+            raise Rejected("block %d has no terminator" % b["id"])
+        # ssa2ast emits a block's phi assignments in the order it meets the phi nodes, i.e. in ssaFunc.Blocks order, which
+        # applyFlattening shuffles; they are taken in a canonical order here (their mutual order is the subject of
+        # C11_phi_sequential_equals_parallel and known finding F6-phi-swap, not of the graph passes)
+        out[b["id"]] = (bodies[b["id"]] + [x[2] for x in sorted(phis[b["id"]])], term)
+    return out
 
 
-def raw_after(f):
-    """The dumped result without assuming the dispatcher shape (ids as dumped): used to execute it."""
-    n = len(f["before"])
-    entry = f["after"][0]
-    fakes = entry["preds"] if entry.get("phi_ints") else []
-    keys = entry.get("phi_ints") or []
-    size = max(b["id"] for b in f["after"]) + 1
-    out = [("ANone", "TPanic")] * size
-    for b in f["after"]:
-        bid = b["id"]
-        if bid < n:
-            out[bid] = ("AOrig %d" % bid, term_of(b, "COrig %d" % bid))
-        elif bid in fakes and fakes.index(bid) < len(keys):
-            out[bid] = ("ASetKey %d" % keys[fakes.index(bid)], term_of(b, "COrig 0"))
-        elif b["term"] == "if" and b.get("cmp_phi"):
-            out[bid] = ("ANone", term_of(b, "CKeyEq %d" % b.get("cmp_int", 0)))
-        else:
-            out[bid] = ("ANone", term_of(b, "COrig 0"))
-    return entry["id"], out
+def coq_term(term, ren):
+    r = lambda x: ren.get(x, 10**5)
+    if term[0] == "jump":
+        return "TJump %d" % r(term[1])
+    if term[0] == "if":
+        return "TIf (%s) %d %d" % (term[1], r(term[2]), r(term[3]))
+    if term[0] == "ret":
+        return "TRet %d" % term[1]
+    return "TPanic %d" % term[1]
 
 
-HEADER = """From Verif Require Import Base.Bytes Model.Flatten.
+def coq_cfg(mb, ren):
+    """blocks in model numbering (ren: dump id -> model id, a bijection onto 0..len-1)"""
+    inv = sorted(ren.items(), key=lambda kv: kv[1])
+    assert [v for _, v in inv] == list(range(len(inv)))
+    return "[" + "; ".join("mkb [%s] (%s)" % ("; ".join(mb[d][0]), coq_term(mb[d][1], ren)) for d, _ in inv) + "]"
+
+
+def kind_keeps_positions(kind):
+    return kind in ("junk", "trash", "split")
+
+
+def derive_pass(prev, cur, ren, mb_cur, nm):
+    """The parameters the implementation chose, read off its output, and the numbering of the new
+    blocks that the model's pass produces.  Returns (coq pass term, new ren); raises ValueError when
+    the output does not have the shape of the pass at all (then the raw numbering is used)."""
+    n = len(prev["blocks"])
+    old = {b["id"] for b in prev["blocks"]}
+    new = [b for b in cur["blocks"] if b["id"] not in old]
+    byid = {b["id"]: b for b in cur["blocks"]}
+    ren2 = {b["id"]: k for k, b in enumerate(cur["blocks"])}     # model ids = positions in ssaFunc.Blocks
+    if kind_keeps_positions(cur["pass"]) and any(ren2[d] != ren[d] for d in ren):
+        raise ValueError("the pass reordered the old blocks")
+    kind = cur["pass"]
+    if kind in ("junk", "trash"):
+        want = 1 if kind == "junk" else 2
+        if len(new) != want:
+            raise ValueError("%s added %d blocks" % (kind, len(new)))
+        first = new[0]["id"]
+        edges = [(b["id"], i) for b in cur["blocks"] for i, t in enumerate(b["succs"]) if t == first and b["id"] in old]
+        if len(edges) != 1:
+            raise ValueError("the new block has %d incoming edges from old blocks" % len(edges))
+        src, slot = edges[0]
+        if [ren2[b["id"]] for b in new] != list(range(n, n + len(new))):
+            raise ValueError("new blocks are not appended")
+        if kind == "junk":
+            return ["PJump %d %d" % (ren[src], slot)], ren2
+        d = new[0]
+        phi = [i for i in d["instrs"] if i["kind"] == "phi"]
+        if d["cond_instr"] < 0 or len(phi) != 1 or phi[0]["id"] != d["cond_phi"] or not phi[0].get("edges") or phi[0]["edges"][0] is None:
+            raise ValueError("the trash guard is not  phi(constant) OP constant")
+        return ["PTrash %d %d %d %d %s %d [%s]" % (ren[src], slot, nm(("var", d["cond_phi"])), phi[0]["edges"][0], OPS[d["cond_op"]], d["cond_int"],
+                                                   "; ".join(mb_cur[new[1]["id"]][0]))], ren2
+    if kind == "split":
+        if len(new) != 1:
+            raise ValueError("split added %d blocks" % len(new))
+        nb = new[0]
+        if len(nb["preds"]) != 1 or nb["preds"][0] not in old:
+            raise ValueError("the second part does not have the first part as its only predecessor")
+        j = nb["preds"][0]
+        if ren2[nb["id"]] != n:
+            raise ValueError("the new block is not appended")
+        return ["PSplit %d %d" % (ren[j], len(mb_cur[j][0]))], ren2
+    if kind == "flatten":
+        entry = cur["blocks"][0]
+        ephi = [i for i in entry["instrs"] if i["kind"] == "phi"]
+        if entry["id"] in old or entry["term"] != "jump" or len(ephi) != 1 or any(c is None for c in (ephi[0].get("edges") or [None])):
+            raise ValueError("Blocks[0] is not a dispatcher entry (jump with one constant phi)")
+        fakes = entry["preds"]
+        m = len(fakes)
+        keys = ephi[0]["edges"]
+        if len(set(fakes)) != m or any(f in old or f not in byid for f in fakes):
+            raise ValueError("dispatcher predecessors are not %d distinct new blocks" % m)
+        chain, c = [], entry["succs"][0]
+        while c in byid and c not in old and c not in chain and c != entry["id"] and c not in fakes and len(chain) <= m + 1:
+            chain.append(c)
+            if byid[c]["term"] != "if":
+                break
+            c = byid[c]["succs"][1]
+        canon = dict(ren)             # the ids Model/Passes.v's flatten gives, before the shuffle
+        for k, b in enumerate(fakes):
+            canon[b] = n + k
+        for k, b in enumerate(chain):
+            canon[b] = n + m + k
+        canon[entry["id"]] = n + len(fakes) + len(chain)
+        if set(canon) != set(byid) or sorted(canon.values()) != list(range(len(byid))):
+            raise ValueError("blocks outside old/fake/if-chain/entry")
+        sigma = [ren2[d] for d, _ in sorted(canon.items(), key=lambda kv: kv[1])]
+        info = cur.get("info") or []
+        if [p[0] for p in info] != keys or [p[1] for p in info] != [byid[c]["cond_int"] for c in chain][:len(info)]:
+            raise ValueError("dispatcherInfo does not list the stored/compared constants")
+        return ["PFlatten %d [%s]" % (nm(("var", ephi[0]["id"])), "; ".join(str(k) for k in keys)),
+                "PShuffle [%s]%%nat" % "; ".join("%d" % x for x in sigma)], ren2
+    raise ValueError("unknown pass " + kind)
+
+
+HEADER = """From Verif Require Import Base.Bytes Model.Passes.
 Open Scope N_scope.
-Definition mkb (a : action) (t : term) : block := {| baction := a; bterm := t |}.
-(* free interpretation: the state is the list of executed original blocks; a branch depends on the block, the history length and a salt *)
+Definition mkb (b : list instr) (t : term) : block := {| body := b; bterm := t |}.
+(* free interpretation: the state is the list of executed instructions; a branch depends on the condition, the history length and a salt *)
 Definition tact (a : nat) (s : list nat) : list nat := a :: s.
 Definition tcond (salt : nat) (c : nat) (s : list nat) : bool := Nat.odd (Nat.div (c * 7 + length s * 13 + salt * 5 + Nat.modulo (length s * length s) 11) 3).
-Definition differs (salt : nat) (g real : cfg) (entry : nat) : bool :=
-  match run (list nat) tact (tcond salt) g 400 (0%nat, 0, []) with
+Definition same (r r' : nat * bool * list nat) : bool :=
+  Nat.eqb (fst (fst r)) (fst (fst r')) && Bool.eqb (snd (fst r)) (snd (fst r')) && Nat.eqb (length (snd r)) (length (snd r')) &&
+  forallb (fun p => Nat.eqb (fst p) (snd p)) (combine (snd r) (snd r')).
+Definition differs (salt : nat) (g : cfg) (start : nat) (real : cfg) (start' : nat) : bool :=
+  match run (list nat) tact (tcond salt) g 300 (start, env0, []) with
   | None => false
-  | Some r => match run (list nat) tact (tcond salt) real 40000 (entry, 0, []) with
-              | Some r' => negb (Nat.eqb (fst r) (fst r') && forallb (fun p => Nat.eqb (fst p) (snd p)) (combine (snd r) (snd r')) && Nat.eqb (length (snd r)) (length (snd r')))
+  | Some r => match run (list nat) tact (tcond salt) real 30000 (start', env0, []) with
+              | Some r' => negb (same r r')
               | None => true
               end
   end.
+Definition stage_ok (c : list pass * cfg * nat * cfg * nat) : bool :=
+  let '(ps, g, start, real, start') := c in
+  passes_okb ps (g, start) && cfg_eqb (fst (apply_passes ps (g, start))) real && Nat.eqb (snd (apply_passes ps (g, start))) start'.
 """
+
+PIPELINES = [["flatten"], ["junk", "flatten"], ["split", "split", "junk", "junk", "flatten"], ["trash", "flatten"], ["flatten", "flatten"],
+             ["trash", "trash", "split", "junk", "junk", "junk", "flatten", "flatten"], ["junk", "junk", "junk", "junk"], ["split", "trash", "split", "flatten"]]
 
 
 def run(res, garble, tier, seed):
-    """Returns the number of function instances compared."""
+    """Returns the number of stages compared."""
     rng = random.Random(seed * 7919 + 11)
-    nrand = 12 if tier == "quick" else 150
-    nseeds = 3 if tier == "quick" else 12
+    nrand = 12 if tier == "quick" else 120
+    nseeds = 2 if tier == "quick" else 6
     sources = [("catalogue", CATALOGUE)]
     for i in range(0, nrand, 6):
         sources.append(("random-%d" % i, "package p\n" + "".join(gen_func(rng, "f%d" % (i + j)) for j in range(6))))
     oracle = names_common.Oracle(garble)
     reqs, meta = [], []
     for sname, src in sources:
-        for k in range(nseeds):
-            sd = rng.randrange(1, 2**40)
-            reqs.append({"op": "cfdump", "s": src, "s2": "flatten", "name": str(sd)})
-            meta.append((sname, src, sd))
+        for pl in (PIPELINES if tier != "quick" else [PIPELINES[0], PIPELINES[5], PIPELINES[(seed % 6) + 1]]):
+            for k in range(nseeds):
+                sd = rng.randrange(1, 2**40)
+                reqs.append({"op": "cfdump", "s": src, "args": pl, "name": str(sd)})
+                meta.append((sname, src, sd, pl))
     outs = oracle.batch(reqs)
-    cases, cmeta, sizes, skipped = [], [], [], 0
-    for (sname, src, sd), o in zip(meta, outs):
+    cases, cmeta, sizes = [], [], []
+    hist = {"junk": 0, "trash": 0, "split": 0, "flatten": 0, "no-op (too small)": 0, "rejected by ssa2ast": 0, "pass panics": 0}
+    for (sname, src, sd, pl), o in zip(meta, outs):
         if "funcs" not in o:
             raise RuntimeError("cfdump failed on %s: %s" % (sname, json.dumps(o)[:500]))
         for f in o["funcs"]:
-            where = {"source": src, "function": f["name"], "generator_seed": sd, "pass": "flatten"}
-            if f.get("panic"):
-                res.violation("flatten-panic:%s" % f["name"], "applyFlattening panics on function %s (generator seed %d)" % (f["name"], sd), where)
-                continue
-            n = len(f["before"])
-            if not f["ok"]:
-                # fewer than three blocks: the function must be left alone
-                if n >= 3 or f["after"] != f["before"]:
-                    res.violation("flatten-skip:%s" % f["name"], "applyFlattening reports no dispatcher for %s (%d blocks) or changed it anyway" % (f["name"], n), where)
-                skipped += 1
-                continue
-            g = before_graph(f)
+            st0 = f["stages"][0]
+            initial_phis = {i["id"] for b in st0["blocks"] for i in b["instrs"] if i["kind"] == "phi"}
+            nm = Namer()
+            ren = {b["id"]: k for k, b in enumerate(st0["blocks"])}
+            start = st0["blocks"][0]["id"]
             try:
-                keys, real, notes = canonical_after(f)
-            except ValueError as e:
-                keys, real, notes = [], [], [str(e)]
-            entry_id, raw = raw_after(f)
-            cases.append("(%s, %s, %s, %s, %d%%nat)" % ("[" + "; ".join(str(k) for k in keys) + "]", coq_cfg(g), coq_cfg(real), coq_cfg(raw), entry_id))
-            cmeta.append((where, notes, f))
-            sizes.append(n)
-    bad = vlib.coq_eval_cases("cfgraph", HEADER, "list N * cfg * cfg * cfg * nat", cases,
-                              "(fun c => let '(keys, g, real, raw, e) := c in negb (hyps_okb keys g && cfg_eqb (flatten keys g) real))", chunk=60)
+                mb_prev = model_blocks(st0, initial_phis, nm)
+            except Rejected:
+                continue
+            prev = st0
+            for t, cur in enumerate(f["stages"][1:], 1):
+                where = {"source": src, "function": f["name"], "generator_seed": sd, "passes": pl[:t], "stage": t}
+                if cur.get("panic"):
+                    hist["pass panics"] += 1     # a garble panic = a failed build: rejected, not silently changed
+                    break
+                if not cur["ok"] or [b["id"] for b in cur["blocks"]] == [b["id"] for b in prev["blocks"]] and cur["blocks"] == prev["blocks"]:
+                    if cur["blocks"] != prev["blocks"]:
+                        res.violation("pass-noop-changed:%s" % cur["pass"], "%s reports it did nothing on %s but the graph changed" % (cur["pass"], f["name"]), where)
+                        break
+                    hist["no-op (too small)"] += 1
+                    continue
+                try:
+                    mb_cur = model_blocks(cur, initial_phis, nm)
+                except Rejected:
+                    hist["rejected by ssa2ast"] += 1
+                    break
+                notes = []
+                try:
+                    p, ren2 = derive_pass(prev, cur, ren, mb_cur, nm)
+                except ValueError as e:
+                    notes.append(str(e))
+                    p = []
+                    ren2 = {b["id"]: k for k, b in enumerate(cur["blocks"])}
+                start2 = cur["blocks"][0]["id"]
+                cases.append("([%s], %s, %d%%nat, %s, %d%%nat)" % ("; ".join(p), coq_cfg(mb_prev, ren), ren[start], coq_cfg(mb_cur, ren2), ren2[start2]))
+                cmeta.append((where, notes, cur["pass"]))
+                sizes.append(len(prev["blocks"]))
+                hist[cur["pass"]] += 1
+                prev, mb_prev, ren, start = cur, mb_cur, ren2, start2
+    bad = vlib.coq_eval_cases("cfgraph", HEADER, "list pass * cfg * nat * cfg * nat", cases, "(fun c => negb (stage_ok c))", chunk=40)
     flagged = sorted(set(bad) | {i for i, (_, notes, _) in enumerate(cmeta) if notes})
     if flagged:
         # search for an execution on which the real result differs from the input
-        sub = [cases[i] for i in flagged]
+        sub = [cases[i] for i in flagged[:40]]
         witnesses = {}
-        for salt in range(6):
-            d = vlib.coq_eval_cases("cfdiff%d" % salt, HEADER, "list N * cfg * cfg * cfg * nat", sub,
-                                    "(fun c => let '(keys, g, real, raw, e) := c in differs %d g raw e)" % salt, chunk=20)
+        for salt in range(16):
+            d = vlib.coq_eval_cases("cfdiff%d" % salt, HEADER, "list pass * cfg * nat * cfg * nat", sub,
+                                    "(fun c => let '(p, g, start, real, start') := c in differs %d g start real start')" % salt, chunk=10)
             for j in d:
                 witnesses.setdefault(flagged[j], salt)
-        for i in flagged[:6]:
-            where, notes, f = cmeta[i]
-            desc = "; ".join(notes) if notes else "the graph applyFlattening produced is not Model/Flatten.v's flatten of its input (or its keys are not distinct and non-zero)"
-            replay = dict(where, dump=f, notes=notes, obligation="hyps_okb keys g && cfg_eqb (flatten keys g) real (theorem C11_flatten_checked_instance)")
+        reported = set()
+        for i in flagged:
+            where, notes, kind = cmeta[i]
+            key = "%s-graph:%s" % (kind, where["function"])
+            if key in reported or len(reported) >= 6:
+                continue
+            reported.add(key)
+            desc = "; ".join(notes) if notes else "the graph the pass produced is not Model/Passes.v's result on its input (or the pass's hypotheses do not hold)"
+            replay = dict(where, notes=notes, coq_case=cases[i], obligation="stage_ok: passes_okb && cfg_eqb (apply_passes ps g) real (theorem C11_passes_checked_instance)")
             if i in witnesses:
                 replay["trace_interpretation_salt"] = witnesses[i]
-                res.violation("flatten-graph:%s" % where["function"], "applyFlattening on %s (generator seed %d): %s; under the trace interpretation with salt %d the result "
-                              "executes different blocks than the input" % (where["function"], where["generator_seed"], desc, witnesses[i]), replay)
+                res.violation(key, "%s on %s (generator seed %d, after %s): %s; under the trace interpretation with salt %d the result executes different instructions "
+                              "than the input" % (kind, where["function"], where["generator_seed"], where["passes"][:-1], desc, witnesses[i]), replay)
             else:
-                res.violation("flatten-graph:%s" % where["function"], "applyFlattening on %s (generator seed %d): %s" % (where["function"], where["generator_seed"], desc),
+                res.violation(key, "%s on %s (generator seed %d, after %s): %s" % (kind, where["function"], where["generator_seed"], where["passes"][:-1], desc),
                               replay, found_input=False)
-    res.cov["flatten_graph_instances"] = len(cases)
-    res.cov["flatten_graph_skipped_small"] = skipped
-    res.cov["flatten_graph_block_counts"] = {"min": min(sizes) if sizes else 0, "max": max(sizes) if sizes else 0,
-                                             "mean": round(sum(sizes) / max(1, len(sizes)), 1)}
+    res.cov["pass_graph_stages"] = len(cases)
+    res.cov["pass_graph_histogram"] = hist
+    res.cov["pass_graph_block_counts"] = {"min": min(sizes) if sizes else 0, "max": max(sizes) if sizes else 0,
+                                          "mean": round(sum(sizes) / max(1, len(sizes)), 1)}
     return len(cases)
